@@ -214,6 +214,18 @@ def _r7(ctx, pkg):
     ok = False
     found = ""
     regex_key = None
+    is_tok = lambda x, i: x[0] == "item" and x[2] == i and x[1][0] == "meth" and x[1][2] == "split" and not x[1][3]
+    if acc is None and len(ret) == 1 and ret[0][0] == "comp" and ret[0][1] == "dict":
+        # the table as one dict comprehension
+        from ..valueflow import expand_bvals
+        kv = expand_bvals(fl, ret[0][2])
+        if kv[0] == "tuple" and len(kv[1]) == 2:
+            k, val = kv[1]
+            found = f"{show(k)[:70]} : {show(val)[:50]}"
+            ok = is_tok(k, 0) and val[0] == "call" and val[1] == ("global", "float") and is_tok(val[2][0], 1) and k[1] == val[2][0][1]
+            if ok:
+                ctx.check(True, "R7", "built-in table:key", (CHEMDATA, fn.lineno), "key = first token of the record, value = float(second token)")
+                return
     for f in writes:
         kv = None
         v = simp(f.value) if f.value else None
@@ -224,7 +236,6 @@ def _r7(ctx, pkg):
         if kv:
             k, val = kv
             found = f"{show(k)[:70]} : {show(val)[:50]}"
-            is_tok = lambda x, i: x[0] == "item" and x[2] == i and x[1][0] == "meth" and x[1][2] == "split" and not x[1][3]
             ok = is_tok(k, 0) and val[0] == "call" and val[1] == ("global", "float") and is_tok(val[2][0], 1) and k[1] == val[2][0][1]
             if not ok and k[0] in ("sub", "meth") and "match" in show(k):
                 regex_key = k
